@@ -876,8 +876,18 @@ class OverlayStore(Store):
         self.on_metadata_changed(key)
 
     def store_metadata(self, key, metadata):
+        copy_data = (
+            key not in self.removed
+            and not self.overlay.contains(key)
+            and self.fallback.contains(key)
+            and not self.fallback.is_dir(key)
+        )
         self._restore(key)
-        self.overlay.store_metadata(key, metadata)
+        if copy_data:
+            # The data lives only in the fallback: copy it, otherwise the overlay entry would shadow it with no data
+            self.overlay.store(key, self.fallback.get_bytes(key), metadata)
+        else:
+            self.overlay.store_metadata(key, metadata)
         self.on_metadata_changed(key)
 
     def remove(self, key):
